@@ -23,7 +23,7 @@ T_VISUAL = "the visual printer is modelled by hand (`Vis.nodeJ` etc.) and tied b
 
 PROPS = {
     "C01": {
-        "claim": "partial proof: the component/field wiring tables of the parser are regenerated from source and proved equal to the specification's symbol table (every symbol reaches exactly its own field; 27 fields); the fidelity statement itself (parse (render s) = denote s: leaves in source order, operators and precedence as written, left-associated chains, implicit bAND, shared text) is decided by the correspondence run against the specification `denoteTop` over generated grammar ASTs, not by a theorem about the regex code",
+        "claim": "partial proof: the documented meaning (`denote`) is proved to keep exactly the annotated texts in source order as leaves for every component content (combinations, chains, shared text, several combinations), to associate same-operator chains to the left, to bind parentheses as written, to place outside text on the inner combination and to join separate annotations by the implicit conjunction; the component/field wiring tables of the parser are regenerated from source and proved equal to the specification's symbol table; that parser.ParseStatement returns this meaning (parse (render s) = denote s) is decided by the correspondence run over generated grammar ASTs, not by a theorem about the regex code; one open known finding",
         "note": T_PARSER,
         "rule": PARSE_RULE,
         "assumptions": ["Go regexp/strings behave as documented", "texts are drawn from the word/punctuation alphabets of DESIGN.md section 3"],
@@ -37,7 +37,7 @@ PROPS = {
         "design_ref": "DESIGN.md section 4 C02, section 9",
     },
     "C03": {
-        "claim": "partial proof: theorems fix the specification of pair expansion (one complete statement per group = group merged with everything outside, linked by exactly the written operator tree; no pairs => single statement) and the regenerated copy wiring (every field copied into the same field, target first, bAND) is proved equal to `mergeStmt`; agreement of the parser with the specification is decided by correspondence over generated pair ASTs (top level and nested)",
+        "claim": "partial proof: the specification of pair expansion is proved complete and exclusive - field by field an expanded statement holds the group's value, the value written outside the braces, or both joined by the implicit conjunction (group first), and nothing else (`expanded_statement_fields`); statements are linked by exactly the written operator tree; the same expansion applies inside nested statements (root carries the component's header); the regenerated copy wiring (every field into the same field, target first, bAND) is proved equal to `mergeStmt`; agreement of the parser with the specification is decided by correspondence over generated pair ASTs (top level, inside nested statements, groups closed by a nested component), and the tables of expanded statements (also exported to a file) are checked against model and oracles",
         "note": T_PARSER,
         "rule": PARSE_RULE,
         "assumptions": ["Go regexp/strings behave as documented"],
